@@ -195,11 +195,10 @@ impl Method for SMM {
 
 				#[allow(unsafe_code)]
 				unsafe {
-					std::ptr::copy(
-						self.slice.as_ptr().add(start),
-						self.slice.as_mut_ptr().add(dest),
-						count,
-					);
+					// derive both pointers from a single mutable borrow: a pointer obtained from `as_ptr()`
+					// is invalidated by the later `as_mut_ptr()` reborrow
+					let ptr = self.slice.as_mut_ptr();
+					std::ptr::copy(ptr.add(start), ptr.add(dest), count);
 				}
 			}
 
